@@ -146,6 +146,10 @@ impl Optimizer {
     ///
     /// Returns an error if optimization fails.
     pub fn optimize(&self, plan: LogicalPlan) -> Result<LogicalPlan> {
+        // The rules below, the planner and the executor all recurse over the plan:
+        // refuse one that would overflow the stack
+        plan.check_depth()?;
+
         let mut root = plan.root;
 
         // Apply optimization rules
